@@ -154,6 +154,22 @@ def domain(sort, quick=True):
 
 
 def runtime_inputs(qualname, quick=True, cap=4000):
+    # a contract / lemma may bring its own run-time domain (dependent arguments) and its own cap
+    # (expensive postconditions): attributes runtime_domain(quick) -> iterable of argument tuples,
+    # runtime_cap (int)
+    holder = dsl.LEMMAS[qualname[6:]]["fn"] if qualname.startswith("lemma:") else getattr(dsl.CONTRACTS.get(qualname), "cls", None)
+    own_cap = getattr(holder, "runtime_cap", None)
+    if own_cap is not None:
+        cap = min(cap, own_cap if quick else own_cap * 4)
+    own = getattr(holder, "runtime_domain", None)
+    if own is not None:
+        import random
+
+        items = [tuple(a) for a in own(quick)]
+        if len(items) > cap:
+            random.Random(11).shuffle(items)
+            items = items[:cap]
+        return [(qualname, a) for a in items]
     try:
         doms = [domain(s, quick) for s in _params_of(qualname).values()]
     except KeyError:
